@@ -817,6 +817,36 @@ theorem no_panic_within_u32 {cfg : TtlConfig} (hd : DurOK cfg) (ho : cfg.overU32
   unfold INSTANT_LIMIT NS at *
   omega
 
+/-- every insert of the history happens at most `2^62 s` after the base instant -/
+def TimesSane (ops : List Op) : Prop := ∀ q r t, Op.ins q r t ∈ ops → t ≤ 4611686018427387904 * NS
+
+/-- The two technical hypotheses of the history theorems (`SecsOK`, `Representable`) hold for every
+configuration whose bounds are ordered and below `2^32 s` and every history with sane instants —
+i.e. everywhere outside the known-finding class. -/
+theorem hyps_of_sane {cfg : TtlConfig} (hd : DurOK cfg) (ho : cfg.overU32 = false) {ops : List Op}
+    (ht : TimesSane ops) : SecsOK cfg ∧ Representable cfg ops := by
+  refine ⟨secsOK_of_not_overU32 hd ho, ?_⟩
+  intro q r t hm
+  have h1 := lifetime_lt_of_not_over hd ho q.qtype r
+  have h2 := ht q r t hm
+  unfold INSTANT_LIMIT NS at *
+  omega
+
+/-- `never_stale` with hypotheses on the configuration and the instants only. -/
+theorem never_stale_sane {cfg : TtlConfig} (hd : DurOK cfg) (ho : cfg.overU32 = false) (ops : List Op)
+    (ht : TimesSane ops) (q : Query) (now : Nat) (res : Res)
+    (hg : Cache.get (run cfg [] ops) q now = some res) :
+    ∃ r0 t0, track ops q = some (r0, t0) ∧ Op.ins q r0 t0 ∈ ops ∧
+      now ≤ t0 + lifetime cfg q.qtype r0 :=
+  never_stale hd (hyps_of_sane hd ho ht).1 ops (hyps_of_sane hd ho ht).2 q now res hg
+
+/-- `ttl_exact` with hypotheses on the configuration and the instants only. -/
+theorem ttl_exact_sane {cfg : TtlConfig} (hd : DurOK cfg) (ho : cfg.overU32 = false) (ops : List Op)
+    (ht : TimesSane ops) (hwf : HistWF ops) (q : Query) (now : Nat) (res : Res)
+    (hg : Cache.get (run cfg [] ops) q now = some res) :
+    ∃ r0 t0, track ops q = some (r0, t0) ∧ res = (stored cfg r0).decr (elapsed t0 now) :=
+  ttl_exact hd (hyps_of_sane hd ho ht).1 ops (hyps_of_sane hd ho ht).2 hwf q now res hg
+
 /-- global `positive_max_ttl = 2^33 s` -/
 def cfgBigMax : TtlConfig := { default := { posMax := some (8589934592 * NS) } }
 
@@ -868,6 +898,10 @@ example : (Cache.get (run cfgEx [] histEx) qA (11 * NS)).isSome = true ∧
 example : Cache.get (run cfgEx [] histEx) ⟨1, 16⟩ (32 * NS) =
     some (.neg { negTtl := some 870, soa := some { rtype := 6, ttl := 870, pid := 4 }, rcode := 3 }) ∧
     Cache.get (run cfgEx [] histEx) ⟨1, 16⟩ (32 * NS + 1) = none := by decide
+example : TimesSane histEx := by
+  intro q r t h
+  simp only [histEx, List.mem_cons, Op.ins.injEq, List.mem_nil_iff, reduceCtorEq, or_false] at h
+  rcases h with ⟨rfl, rfl, rfl⟩ | ⟨rfl, rfl, rfl⟩ | ⟨rfl, rfl, rfl⟩ <;> decide
 example : noRefresh qA [.ins ⟨1, 16⟩ (.neg negEx) 5, .ins qA (.other 0) 6, .get qA 7] = true := by decide
 
 example : cfgSecsInverted.overU32 = true ∧ cfgHuge.overU32 = true ∧ cfgEx.overU32 = false := by decide
